@@ -1,6 +1,6 @@
 #!/bin/sh
 # tools/keep_mutant.sh <Cxx> <name> "<test paths>"   confirm a seeded change in its worktree /tmp/wt/<Cxx> and keep it
-ID="$1"; NAME="$2"; TESTS="$3"; WT=/tmp/wt/$ID; OUT=/verif/seeded/$ID-$NAME
+ID="$1"; NAME="$2"; TESTS="$3"; WT=${WTROOT:-/tmp/wt}/$ID; OUT=/verif/seeded/$ID-$NAME
 cd $WT || exit 2
 mkdir -p $OUT
 git diff -- pynenc pynmon > $OUT/patch.diff
